@@ -27,9 +27,12 @@ TECHNIQUE = "property-based testing: independent numpy reference pipeline + meta
 @st.composite
 def strategy(draw):
     dt = draw(gen.choice(gen.DTS))
-    spec = draw(gen.processing_spec(n_max=600, policy="frequency_domain_resampling"))
+    spec = draw(gen.processing_spec(n_max=600, policy="frequency_domain_resampling",
+                                    fft_choices=(None, None, 2 ** 15, 2 ** 16, 256, 64, "record-length")))
     mixed = spec["method"] != "diffuse_field" and draw(gen.chance(4))
-    nrec = draw(st.sampled_from([4, 5])) if mixed else draw(st.sampled_from([1, 1, 2, 3]))
+    nrec = draw(st.sampled_from([4, 5])) if mixed else draw(st.sampled_from([1, 1, 2, 3, 2]))
+    # rarely: a window longer than the 2^15 minimum FFT length placed after shorter ones (FFT length must follow the longest)
+    long_window = (not mixed) and spec["method"] != "diffuse_field" and spec["fft_n"] in (None, 2 ** 15) and nrec >= 2 and draw(gen.chance(10))
     equal_len = draw(st.booleans())
     n0 = draw(st.integers(16, 600))
     exp = draw(st.integers(-9, 9))
@@ -43,13 +46,28 @@ def strategy(draw):
         for r in recs:
             r["n"] = n0
         spec["policy"] = "keeping_majority_time_step"
+    if long_window:
+        recs[-1]["n"] = 2 ** 15 + draw(st.integers(1, 3000))
+        spec["_nfft"] = 2 ** 16
+    if spec["fft_n"] == "record-length":
+        for r in recs:                      # a coarse FFT grid needs room for the kernels: windows of >= 128 samples
+            r["n"] = max(r["n"], 128)
+        spec["_nfft"] = max(r["n"] for r in recs)
+    if isinstance(spec["fft_n"], int) and max(r["n"] for r in recs) == spec["fft_n"]:
+        recs[0]["n"] += 1                   # an explicit n equal to the record length is honoured as it is (no 2^15 minimum)
+        if spec["method"] == "diffuse_field":
+            for r in recs:
+                r["n"] = recs[0]["n"]
     nfft = spec["_nfft"]
     dts_used = [r["dt"] for r in recs]
     df_max, fnyq_min = 1.0 / (nfft * min(dts_used)), 0.5 / max(dts_used)
     fcs = draw(gen.center_frequencies(spec["op"], spec["bw"], df_max, fnyq_min))
     if fcs is None:
-        spec["op"], spec["bw"] = "konno_and_ohmachi", 40.0
+        spec["op"], spec["bw"] = "konno_and_ohmachi", 10.0
         fcs = draw(gen.center_frequencies(spec["op"], spec["bw"], df_max, fnyq_min))
+    if fcs is None:
+        spec["fft_n"], spec["_nfft"] = None, 2 ** 15
+        fcs = draw(gen.center_frequencies(spec["op"], spec["bw"], 1.0 / (2 ** 15 * min(dts_used)), fnyq_min))
     spec["fcs"] = fcs
     k = draw(st.sampled_from([-8, -3, -1, 1, 2, 5, 8]))
     prop = dict(A=draw(st.one_of(gen.signed(0.01, 5), st.sampled_from([1.0, -1.0, 2.0, 0.0]))),
@@ -75,12 +93,12 @@ def _curves(result, method):
     return [(None, np.asarray(result.amplitude))]
 
 
-def _process(hv, arrays, dt, spec):
+def _process(hv, arrays, dt, spec, allow=()):
     TS, R = hv.TimeSeries, hv.SeismicRecording3C
     dts = dt if isinstance(dt, list) else [dt] * len(arrays)
     recs = [R(TS(ns, d), TS(ew, d), TS(vt, d)) for (ns, ew, vt), d in zip(arrays, dts)]
     settings = gen.make_settings(hv, spec)
-    res = sut(hv.process, recs, settings, what=f"process[{spec['method']}]")
+    res = sut(hv.process, recs, settings, allow=allow, what=f"process[{spec['method']}]")
     return res, settings
 
 
@@ -121,9 +139,21 @@ def check_case(case):
     m = spec["method"]
     fcs = np.array(spec["fcs"], dtype=float)
     arrays = [gen.expand_recording_arrays(r) for r in case["records"]]
-    labels = [f"{gen.family(m)}|{spec['op']}", m]
+    labels = [f"{gen.family(m)}|{spec['op']}", m, f"fft={spec['fft_n']}"]
+    if max(r["n"] for r in case["records"]) > 2 ** 15:
+        labels.append("window-longer-than-2^15")
     if len(set(dt)) > 1:
         labels.append("mixed-dt")
+    # Savitzky-Golay has negative weights: on a coarse (un-padded) FFT grid a smoothed spectrum can come out <= 0,
+    # which the result classes refuse.  The reference tells whether this case is such a one.
+    if spec["op"] == "savitzky_and_golay":
+        pre, _ = _reference(arrays, dt, spec, spec["_nfft"])
+        if any((not np.all(np.isfinite(r))) or np.any(r <= 0) for _, r in pre):
+            try:
+                _process(hv, arrays, dt, spec, allow=(ValueError,))
+            except Refusal:
+                pass
+            return dict(labels=labels + ["sg-nonpositive-refusal"], nontrivial=False)
     res, settings = _process(hv, arrays, dt, spec)
 
     # frequency vector = requested centres, exactly; FFT length pads, never truncates
@@ -151,11 +181,16 @@ def check_case(case):
             jj = int(np.flatnonzero(sel)[j])
             raise Violation(f"{m}/{spec['op']}(bw={spec['bw']:.4g}), tukey {spec['width']:.3g}, azimuth {az_r}: window {i} at fc={fcs[jj]:.6g} Hz "
                             f"is {g[i, jj]!r}, reference spectral ratio is {r[i, jj]!r}", got=g[i, jj], expected=r[i, jj])
-        require(np.all(g >= 0) and np.all(np.isfinite(g)), f"{m}: non-finite or negative amplitudes returned")
+        # (a smoothed vertical spectrum that is exactly zero - an exactly periodic window without padding - gives inf)
+        require(np.all(g[:, finite] >= 0) and np.all(np.isfinite(g[:, finite])), f"{m}: non-finite or negative amplitudes returned")
+        if not finite.all():
+            labels.append("vertical-spectrum-exactly-zero")
 
     # (b) metamorphic: power-of-two rescaling (exact in binary)
     s = 2.0 ** case["k"]
     base = [g for _, g in got]
+
+    sg = spec["op"] == "savitzky_and_golay"
 
     def rows_of(arrs):
         r, _ = _process(hv, arrs, dt, spec)
@@ -173,11 +208,14 @@ def check_case(case):
 
     # (c) closed form on proportional components
     P = case["prop"]
-    n = len(arrays[0][0])
+    n = max(len(a[0]) for a in arrays)      # same FFT length as the main call also for fft_settings n=None
     sig = gen.expand_signal(P["base"], n)
     if np.ptp(sig) > 0:
         parr = [(P["A"] * sig, P["B"] * sig, P["C"] * sig)] * (2 if m == "diffuse_field" else 1)
-        pres = [g for _, g in _curves(_process(hv, parr, dt[0], spec)[0], m)]
+        try:
+            pres = [g for _, g in _curves(_process(hv, parr, dt[0], spec, allow=(ValueError,) if sg else ())[0], m)]
+        except Refusal:
+            pres = []
         if m == "azimuthal":
             expect = [oracle.closed_form("single_azimuth", P["A"], P["B"], P["C"], azimuth=az) for az in spec["azimuths"]]
         else:
@@ -201,9 +239,13 @@ def check_case(case):
     spec2 = dict(spec, width=case["width2"])
     if "azimuth" in spec2:
         spec2["azimuth"] = spec2["azimuth"] + 17.0
-    res2, settings2 = _process(hv, arrays, dt, spec2)
-    ref2, amb2 = _reference(arrays, dt, spec2, settings2.fft_settings["n"])
-    for (_, g), (_, r) in zip(_curves(res2, m), ref2):
+    try:
+        res2, settings2 = _process(hv, arrays, dt, spec2, allow=(ValueError,) if sg else ())
+        ref2, amb2 = _reference(arrays, dt, spec2, settings2.fft_settings["n"])
+        pairs2 = list(zip(_curves(res2, m), ref2))
+    except Refusal:
+        pairs2, amb2 = [], None
+    for (_, g), (_, r) in pairs2:
         sel = ~amb2 & np.isfinite(r).all(axis=0)
         if not close(g[:, sel], r[:, sel], rtol=1e-9, atol=0):
             raise Violation(f"{m}: second call on the same windows with tukey width {case['width2']:.3g} (first call used {spec['width']:.3g}) "
